@@ -476,3 +476,49 @@ CHECKS = {
                 "ladder; the tdms event_mask path is not exercised",
     },
 }
+
+
+# Cases added in rounds 35-38 (appended to the level texts above).
+ADDED = {
+    "C01": "Tables and logs are also read through the dataset interface; "
+           "shape, len, whole-array conversion and iteration of every lazy "
+           "feature object are compared.",
+    "C02": "Sources backed by mapped basins that hold fewer / more events "
+           "than the dataset.",
+    "C05": "A user table in single precision; five medium/model pairs incl. "
+           "water (Kestin 1978), a named medium equals its numeric "
+           "viscosity; the shipped isoelasticity lines converted to six "
+           "set-ups x pixelation offset keep E(line points)/E(line).",
+    "C06": "One 200003-event dataset whose temporary feature is replaced 21 "
+           "times by an array differing in one event; features read "
+           "explicitly by the history are looked at first in every state.",
+    "C07": "len/shape of basin feature objects; exports through a hierarchy "
+           "child at every level; child of a (mapped / unmapped) referrer "
+           "with all child masks, filtered and unfiltered; an export chain "
+           "70001 -> 35001 -> 351 -> 176 -> 36 events; compressed and "
+           "repacked referrers.",
+    "C08": "Two pre-allocated layouts (fill value, only the first chunk "
+           "written).",
+    "C09": "The two switches for empty boundary images set independently.",
+    "C10": "join with its last input as output path (as is, stem, via ..).",
+    "C11": "Configuration(files=[a, b(, c)]): all 16x16 two-file and 27 "
+           "three-file plans over a 4-key pool.",
+    "C12": "4000-event inputs per estimator; every subset of five explicit "
+           "positions x three containers; contour lines at the quantile "
+           "level separate the events.",
+    "C13": "Files with several fluorescence channels (also with a gap) and "
+           "every wrong channel/laser count 0..4; a 150003-event file with "
+           "single index entries off by one; thorough: 8842 corruption "
+           "triples.",
+    "C14": "One remote edge (http/s3/dcor) x 4x4 run-identifier "
+           "assignments x unmapped/mapped, every feature asked for twice.",
+    "C16": "All ordered pairs of 10 spellings of the two switches "
+           "(left out / keyword / positional) x 2 sizes x {grid, rand}.",
+    "C18": "The .tdms mask column (four fixtures, all ordered pairs of "
+           "events and the kept list against the filled contour); volume "
+           "laws on every small mask against the truncated-cone sum.",
+    "C20": "Two files written alternately in one process; production steps "
+           "on files without summaries re-chunked to two events per chunk.",
+}
+for _pid, _txt in ADDED.items():
+    CHECKS[_pid]["text"] = CHECKS[_pid]["text"].rstrip() + " Later additions: " + _txt
